@@ -1150,7 +1150,10 @@ def edit_texts(tier):
                     yield ' '.join(e2)
 
 
-BIG = {'30-digit': '9' * 30, '5000-digit': '1' + '0' * 4999}
+# CPython refuses to convert integer texts of more than 4300 characters (leading zeros count): the literal's length is the
+# boundary, not its value
+BIG = {'30-digit': '9' * 30, '5000-digit': '1' + '0' * 4999, '4300-digit': '7' * 4300, '4301-digit': '7' * 4301,
+       'zero-padded-6001': '0' * 6000 + '7', 'zero-padded-4301': '0' * 4300 + '1', 'zeros-5000': '0' * 5000}
 
 
 def literal_texts():
